@@ -73,7 +73,7 @@ def _rand_case(rng):
 
 
 def _outage_case(rng):
-    """one client loses its subscription connection and keeps reading (get / get_many / exists) the keys the other clients keep
+    """one client loses its subscription connection and keeps reading (get / get_many / exists) and deleting the keys the other clients keep
     changing, all inside the 10 s before it re-subscribes; then the reconnect, then more reads"""
     n = rng.choice([2, 2, 3])
     c = rng.randrange(n)
@@ -81,7 +81,8 @@ def _outage_case(rng):
     for _ in range(rng.randint(4, 12)):
         r = rng.random()
         k = rng.choice(["a", "b", "ab", "n"])
-        if r < 0.45: evs.append(["cmd", c, rng.choice([["get", k], ["exists", k], ["exists", k], ["get_many", [k, rng.choice(U)]]])])
+        if r < 0.45: evs.append(["cmd", c, rng.choice([["get", k], ["exists", k], ["exists", k], ["get_many", [k, rng.choice(U)]],
+                                                       ["delete", k], ["get", k]])])      # the disconnected client also deletes what it has just looked up
         elif r < 0.85:
             o = rng.choice([i for i in range(n) if i != c])
             evs.append(["cmd", o, rng.choice([["delete", k], ["delete", k], ["set", k, enc(rng.choice(VALUES)), rng.choice([0, 0, 1.0]), None],
@@ -109,9 +110,21 @@ def _lock_case(rng):
     return {"clients": n, "events": evs}
 
 
+def _lost_delete_cases():
+    """a client that has lost its subscription looks a key up (absent), another client writes it, the first one deletes it: the delete
+    must reach the server whatever the first client remembers locally"""
+    out = []
+    for k in ("a", "ab"):
+        for look in (["get", k], ["exists", k], ["get_many", [k, "b"]]):
+            for pre in ([], [["cmd", 0, look]]):
+                out.append({"clients": 2, "events": pre + [["drop", 0], ["cmd", 0, look], ["cmd", 1, ["set", k, enc("v1"), 0, None]], ["cmd", 0, ["delete", k]],
+                                                        ["cmd", 1, ["get", k]], ["tick", 96], ["cmd", 0, ["get", k]], ["cmd", 1, ["exists", k]]]})
+    return out
+
+
 def gen_cases(rng, tier):
     n = 400 if tier == "quick" else 5000
-    return [_rand_case(rng) for _ in range(n - n // 4 - n // 8)] + [_outage_case(rng) for _ in range(n // 4)] + [_lock_case(rng) for _ in range(n // 8)]
+    return [_rand_case(rng) for _ in range(n - n // 4 - n // 8)] + [_outage_case(rng) for _ in range(n // 4)] + [_lock_case(rng) for _ in range(n // 8)] + _lost_delete_cases()
 
 
 BASE_MS = int(vclock.BASE * 1000)
